@@ -9,6 +9,15 @@ TRUSTED = ("Trusted base: TLC 1.8 and SANY; the harness's materialisers/projecti
            "computed by TLC from the spec. ")
 
 CHECKS = {
+ "C01": dict(
+    text=("RuleAst.tla transcribes the documented meaning of rule conditions (Eval, Reasons, Anchors) from the rule "
+          "language documentation; TLC checks the oracle against itself (negation, reasons subset, rotation invariance) "
+          "and shows that the leaky-minscore variant differs (negative control); every TLC-enumerated condition tree on "
+          "every TLC-enumerated gene layout (inside / at / outside the cutoff, across the origin) with seeded hit tables, "
+          "plus random deeper trees, is parsed by the real Parser and evaluated by DetectionRule.detect on every gene; "
+          "RuleAst_Trace (TLC) decides met/anchoring/reasons for each."),
+    design="6/C01", technique="TLA+ spec (RuleAst.tla) + TLC model checking + TLC trace validation of DetectionRule.detect",
+    note=TRUSTED + "Trees up to 3 operands exhaustively over the catalogue, depth <= 4 sampled; integer bitscores."),
  "C04": dict(
     text=("Ring.tla states the set-of-bases reading of the location algebra; TLC checks the oracle against itself on all "
           "ordered pairs of the location universe (symmetry, dist/overlap coherence, rotation invariance, satisfiability "
